@@ -5,6 +5,7 @@ import SpoxModel.Props.C14
 #print axioms C14.inconsistent_rejected
 #print axioms C14.consistent_accepted
 #print axioms C14.imports_cover_body
+#print axioms C14.imports_cover_nested_body
 #print axioms C14.imports_cover_model
 #print axioms C14.imports_attained
 #print axioms C14.imports_agree_with_model
